@@ -85,6 +85,12 @@ func (g *c01Gen) value(gen string, ids [][]string) (c01Val, bool) {
 		}
 		return c01Val{k: 'n'}, true
 	}
+	if len(gen) > 2 && gen[:2] != "fk" && g.r.chance(6) {
+		// boundary values (the empty string, zeros of every width, -0.0, false, the zero instants): every dotted path of
+		// the random datasets ends in them now and then (c01_boundary.go is the bounded-exhaustive counterpart)
+		g.count("value:boundary")
+		return c01bBoundaryValue(gen, g.r.intn(2)), true
+	}
 	wrong := g.r.chance(5)
 	switch gen {
 	case "str", "strnum":
@@ -341,6 +347,10 @@ func c01Catalogue(store int, dotted bool) []c01Sym {
 func (g *c01Gen) strLit(sym *c01Sym) *c01Lit {
 	if sym != nil && sym.ids >= 0 && g.r.chance(75) {
 		return &c01Lit{k: 'S', s: g.pickS(append(c01IdPool(sym.ids), "zz", "nope"))}
+	}
+	if g.r.chance(6) {
+		g.count("lit:S-empty")
+		return &c01Lit{k: 'S', s: ""}
 	}
 	if g.r.chance(20) { // escape sequences at the ends / in the middle / alone; spellings of numbers
 		if g.r.chance(70) {
